@@ -547,3 +547,60 @@ def l5(facts, tier):
     if n == 0:
         yield ob(["C16"], "L5", "no-check-then-act", "pass", "", "no function reads the same locked state in two critical sections with the second "
                  "depending on the first", nontrivial=False)
+
+
+# ---------------------------------------------------------------------------------------------
+# L6: a cached value and the key it is valid for are read in ONE critical section
+
+_LOCK_TAKE = ("RwLock::read", "RwLock::write", "RwLock::try_read", "RwLock::try_write", "Mutex::lock", "Mutex::try_lock")
+
+
+def _static_in(n):
+    for y in walk(n):
+        if y.get("k") == "Static" and str(y.get("id", "")).startswith("savefile_abi::"):
+            return y["id"]
+    return None
+
+
+@rule("L6", ["C16"], floor=0, doc="a cached value and the key it is valid for are read in one critical section: when a function compares a parameter with "
+      "the content of an atomic static and, on a match, takes data out of a DIFFERENT lock-protected static, the parameter is compared "
+      "again with data stored under that lock; otherwise a writer that updates the pair between the two reads makes the function return "
+      "the value that belongs to another key")
+def l6(facts, tier):
+    from ..flow import parent_map
+    n = 0
+    for fid, f in sorted(facts.fns.items()):
+        if f["crate"] != "savefile_abi" or not f.get("body") or f.get("kind") == "Closure":
+            continue
+        params = {p["pat"]["v"] for p in f.get("params", []) if (p.get("pat") or {}).get("k") == "Bind"}
+        for x in walk(f["body"]):
+            if x.get("k") != "If":
+                continue
+            loads = [y for y in walk(x["c"]) if y.get("k") == "Call" and (callee(y) or "").rsplit("::", 1)[-1] == "load" and _static_in(y)]
+            if not loads:
+                continue
+            cmp_params = {y["v"] for y in walk(x["c"]) if y.get("k") == "Var" and y["v"] in params}
+            if not cmp_params:
+                continue
+            a_static = _static_in(loads[0])
+            takes = [y for y in walk(x["t"]) if y.get("k") == "Call" and (callee(y) or "").endswith(_LOCK_TAKE) and _static_in(y)
+                     and _static_in(y) != a_static]
+            for t in takes:
+                n += 1
+                b_static = _static_in(t)
+                # comparisons inside the branch that mention the parameter again
+                again = False
+                for y in walk(x["t"]):
+                    if (y.get("k") == "Bin" and y.get("op") in ("Eq", "Ne")) or (y.get("k") == "Call" and (callee(y) or "").endswith(("PartialEq::eq", "PartialEq::ne"))):
+                        if any(z.get("k") == "Var" and z["v"] in cmp_params for z in walk(y)) and not _static_in(y) == a_static:
+                            again = True
+                key = f"{fid}:{a_static.split('::')[-1]}->{b_static.split('::')[-1]}"
+                yield ob(["C16"], "L6", key, "pass" if again else "violation", where(f, t),
+                         f"{fid}: the parameter compared with {a_static} is compared again with data held under {b_static}" if again else
+                         f"{fid}: `{sorted(cmp_params)[0].split('#')[0]}` is compared with the atomic {a_static} outside any lock, and on a match a value is taken out "
+                         f"of {b_static} without comparing it again under that lock: a thread that replaces the cached pair between the two reads "
+                         f"makes this call return the value cached for a different {sorted(cmp_params)[0].split('#')[0]} (a connection built from another "
+                         f"implementation's template)")
+    if n == 0:
+        yield ob(["C16"], "L6", "no-split-key", "pass", "", "no function matches a parameter against an atomic static and then takes data from another "
+                 "lock-protected static", nontrivial=False)
